@@ -78,6 +78,21 @@ Theorem C03_batch_len_fuel : forall p, unbatch32 p <> BOutOfFuel.
 Proof. exact unbatch32_total. Qed.
 Print Assumptions C03_batch_len_fuel.
 
+(* ---- call histories: unserialize is a function of its argument ---- *)
+Theorem C03_unserialize_stateless : forall uri_ok custom_ok decode pre c post,
+  nth_error (run_history uri_ok custom_ok decode (pre ++ c :: post)) (List.length pre)
+  = Some (unserialize_octets uri_ok custom_ok decode (fst (fst c)) (snd (fst c)) (snd c)).
+Proof. exact unserialize_stateless. Qed.
+Print Assumptions C03_unserialize_stateless.
+
+Theorem C03_roundtrip_any_history : forall uri_ok custom_ok decode, custom_law custom_ok ->
+  forall sr s m p pre post, In s schemas -> valid uri_ok custom_ok s m ->
+  decode sr p = Some [VList (marshal s m)] ->
+  nth_error (run_history uri_ok custom_ok decode (pre ++ (sr, Some (ser_binary sr), p) :: post)) (List.length pre)
+  = Some (Ok [(s_type s, m)]).
+Proof. exact roundtrip_any_history. Qed.
+Print Assumptions C03_roundtrip_any_history.
+
 (* ---- the text/binary flag ---- *)
 Theorem C03_binary_flag : forall s,
   serialize_flag s = ser_binary s
